@@ -355,7 +355,7 @@ pub const TYPES: [&str; 2] = ["_t._udp.local.", "_http._tcp.local."];
 
 fn case_variant(rng: &mut Rng, s: &str) -> String {
     match rng.below(4) {
-        0 => s.to_uppercase().replace(".LOCAL.", ".local."),
+        0 => s.to_ascii_uppercase().replace(".LOCAL.", ".local."),
         1 => {
             let mut out = String::new();
             for (i, c) in s.chars().enumerate() {
@@ -384,7 +384,8 @@ pub fn scenario(seed: u64, stepping: Option<Stepping>, long: bool) -> Made {
     let t0 = w.now();
     // keep the periodic interface check out of long runs (it takes effect after the first check)
     w.set_ip_check_interval(h, 3600);
-    let hosts = ["alpha.local.", "beta.local."];
+    // (one of the names has a capital letter outside ASCII: applications pass what users typed)
+    let hosts = ["alpha.local.", "beta.local.", "\u{c9}cole-Gamma.local."];
     // services of the browsed types live on hosts that nobody resolves by name
     let svcs: Vec<Svc> = (0..3)
         .map(|i| {
